@@ -12,6 +12,7 @@ structure DState where
   ids : List Nat := []            -- every instance id mentioned so far
   slots : List (Nat × Bool) := [] -- top-level futures (model id, reported), oldest first
   extRep : List Nat := []         -- external futures already reported
+  opFuts : List (Nat × Nat) := [] -- (coroutine, result future of its operation object) for `startop`
 
 def outStr (isVoid : Bool) : Option Outcome → String
   | some (Outcome.val v) => if isVoid then "ok" else s!"v:{v}"
@@ -88,6 +89,12 @@ def events (d0 : DState) (d1 : DState) : List ((Nat × Nat) × String) :=
     rep 0 (b.allocs - a.allocs) s!"+f{c}" ++ rep 1 (b.bodyStarts - a.bodyStarts) s!"b{c}" ++ sawNew ++ res
       ++ rep 4 (b.localDtors - a.localDtors) s!"~l{c}" ++ rep 5 (b.argDtors - a.argDtors) s!"~a{c}"
       ++ rep 6 (b.frameFrees - a.frameFrees) s!"-f{c}"
+      ++ (match d1.opFuts.find? (fun p => p.1 == c) with
+          | some (_, f) =>
+              -- the completion callback fires at the resolution; the operation object dies with the frame's arguments
+              List.replicate ((d1.s.fut f).cbCalls - (d0.s.fut f).cbCalls) ((10, c), s!"O{c}=" ++ outStr d1.isVoid (d1.s.fut f).out)
+              ++ rep 11 (b.argDtors - a.argDtors) (s!"~o{c}=" ++ (if b.notifiedAtFree == some true then "ready" else "pending"))
+          | none => [])
 
 def report (d : DState) : DState × List ((Nat × Nat) × String) :=
   let idx := List.range d.slots.length
@@ -128,7 +135,8 @@ def doOp (d : DState) (ws : List String) : DState × String :=
       let d1 := addIds d [i]
       if (d1.s.co i).st = St.absent then finishLine d { d1 with s := (step d1.s (Op.create i)).1 } "new"
       else finishLine d d1 "bad-op"
-  | "drop" :: _ | "detach" :: _ | "start" :: _ | "fut" :: _ | "pool" :: _ | "startp" :: _ | "join" :: _ =>
+  | "drop" :: _ | "detach" :: _ | "start" :: _ | "fut" :: _ | "pool" :: _ | "startp" :: _ | "startpm" :: _
+  | "startop" :: _ | "join" :: _ =>
       let op := ws.head!
       let i := num 1
       match obtain d i with
@@ -139,12 +147,15 @@ def doOp (d : DState) (ws : List String) : DState × String :=
         else if op == "start" || op == "fut" || op == "pool" then
           let f := d1.s.nextFut
           finishLine d { d1 with s := (step d1.s (Op.start i)).1, slots := d1.slots ++ [(f, false)] } op
-        else if op == "startp" then
+        else if op == "startp" || op == "startpm" then
           let k := num 2
           if k < d1.s.nExt then
             let (s', r) := step d1.s (Op.startP i k)
-            finishLine d { d1 with s := s' } (if r == Res.flag true then "startp 1" else "startp 0")
+            finishLine d { d1 with s := s' } (op ++ (if r == Res.flag true then " 1" else " 0"))
           else finishLine d d1 "bad-op"
+        else if op == "startop" then
+          let f := d1.s.nextFut
+          finishLine d { d1 with s := (step d1.s (Op.start i true)).1, opFuts := d1.opFuts ++ [(i, f)] } "startop 1"
         else
           let v := num 2
           let f := d1.s.nextFut
